@@ -25,7 +25,11 @@ Inductive case :=
 (** the same on a provider configured only by OTEL_TRACES_SAMPLER[_ARG]
     (arg: unset / set but unparsable / parsed bits) *)
 | CEnv (raw : option bytes) (arg : option (option N)) (gens : list (bytes * bytes)) (ops : list start_op)
-       (obs : list span_obs) (exp_simple exp_batch : list bytes) (calls : list (bool * bytes)).
+       (obs : list span_obs) (exp_simple exp_batch : list bytes) (calls : list (bool * bytes))
+(** a program on a provider whose ID generator is the stock randomIDGenerator over a scripted
+    rand.Source answering [words] and then [fill] for ever; consumed: Int63 calls made on the source *)
+| CStock (words : list N) (fill : N) (s : sampler) (ops : list start_op)
+         (obs : list span_obs) (exp_simple exp_batch : list bytes) (consumed : N).
 
 Definition flag (b : bool) (code : N) : list N := if b then [] else [code].
 
@@ -135,6 +139,29 @@ Definition prog_spec (s : sampler) (gens : list (bytes * bytes)) (ops : list sta
         distinct (map (fun so => o_sid (so_ctx so)) obs)
    else true).
 
+(** *** the stock generator *)
+Definition STOCK_FUEL : nat := 64.
+
+Definition stock_mismatch (words : list N) (fill : N) (s : sampler) (ops : list start_op)
+           (obs : list span_obs) (e1 e2 : list bytes) (consumed : N) : bool :=
+  match run_stock (fun k => nth k words fill) STOCK_FUEL s ops [] rinit with
+  | None => false
+  | Some (spans, st) =>
+      forall2b (span_matches true) spans obs &&
+      list_eqb bytes_eqb (exported_ids spans) e1 && list_eqb bytes_eqb (exported_ids spans) e2 &&
+      (N.of_nat (rk st) =? consumed)
+  end.
+
+(** Spec: every started span carries a valid span context (the hand-made parents of these
+    programs are valid or absent), plus everything demanded of a Start, with the generator's
+    answers read off the spans themselves. *)
+Definition stock_spec (s : sampler) (ops : list start_op) (obs : list span_obs) (e1 e2 : list bytes) : bool :=
+  let gens := map (fun so => (o_tid (so_ctx so), o_sid (so_ctx so))) obs in
+  let calls := map (fun o => let parent := if newroot o then octx_of zero_sc else parent_obs obs (par o) in
+                             (zero (o_tid parent), if zero (o_tid parent) then [] else o_tid parent)) ops in
+  forallb (fun so => octx_valid (so_ctx so)) obs &&
+  starts_spec s obs gens e1 e2 calls 0 ops obs.
+
 Definition SHARE_TOL : Z := 48.   (* 48/256 *)
 
 Definition check_case (c : case) : list N :=
@@ -153,6 +180,9 @@ Definition check_case (c : case) : list N :=
       let s := provider_sampler raw arg in
       flag (prog_mismatch false s gens ops obs e1 e2 calls) V_MISMATCH ++
       flag (prog_spec s gens ops obs e1 e2 calls) V_SPECFAIL
+  | CStock words fill s ops obs e1 e2 consumed =>
+      flag (stock_mismatch words fill s ops obs e1 e2 consumed) V_MISMATCH ++
+      flag (stock_spec s ops obs e1 e2) V_SPECFAIL
   end.
 
 Definition run (cs : list case) : list (N * N) := index_from 0 check_case cs.
